@@ -4,8 +4,11 @@ join, hash / sort / simple aggregation, order, top-N, limit, INSERT..SELECT, DEL
 inputs, one fault-free run lists every (operator, item index) position; then exactly one fault (error | panic) is
 injected at every position. Oracle: the statement returns Err, or Ok with exactly the fault-free rows (the position was
 never demanded); never Ok with other rows; after a failed DML the table equals its pre-statement content (also after reopen)."""
-import json
+import json, os
 from lib import core, runner, sqlutil as U
+
+SCRATCH = os.environ.get("RLV_SCRATCH", "/dev/shm")
+FILES = []
 
 N = 2300          # rows per big table: 3 chunks of <= 1024 rows
 MANY = 20         # chunks of table m
@@ -42,6 +45,11 @@ STMTS = [
     ("many-chunks-probe", "select a.id, m.x from a join m on a.id = m.id", False),
     ("many-chunks-build", "select m.x, a.v from m join a on m.id = a.id", False),
     ("many-chunks-left-filter", "select a.v, m.id from a left join m on a.id = m.id and m.x > 0 where a.id < 1000", False),
+    # export of a query / of a table: the writer runs on its own thread and reports the number of rows it wrote; a failing
+    # child must fail the statement (the file may be left partial, the statement may not report success)
+    ("copy-to-query", "copy (select id + 1, v from a where v > 2) to '@FILE@'", False),
+    ("copy-to-table", "copy a to '@FILE@'", False),
+    ("copy-to-join", "copy (select a.id, m.x from a join m on a.id = m.id) to '@FILE@' (header true)", False),
     ("insert-select", "insert into c select id, v from a where v < 3", True),
     ("insert-join", "insert into c select a.id, b.w from a join b on a.id = b.id", True),
     ("delete", "delete from a where v = 3", True),
@@ -56,6 +64,10 @@ def jobs(tier):
         engines.append(("disk", {"block": 64, "rowset": 1 << 20}, False))
     for engine, opts, pk in engines:
         for name, sql, dml in STMTS:
+            if "@FILE@" in sql:
+                f = os.path.join(SCRATCH, f"rlv-c15-{os.getpid()}-{name}-{engine}-{(opts or {}).get('block', 0)}.csv")
+                FILES.append(f)
+                sql = sql.replace("@FILE@", f)
             out.append({"id": {"shape": name, "engine": engine, "layout": opts, "pk": pk}, "engine": engine, "opts": opts or {}, "setup": setup(pk),
                         "stmt": sql, "observe": OBSERVE, "_dml": dml})
     return out
@@ -69,7 +81,14 @@ def run(tier, seed):
                      "a case = (shape, engine, operator, k, occurrence, kind); oracle: Err, or Ok with the complete fault-free rows; failed DML leaves tables unchanged (also after reopen); "
                      "non-trivial = the fault was actually reached (fired). Plus COPY .. FROM files whose record k in {0,1,1023,1024,1025,2047,2048,2500,2999} is malformed "
                      "(bad value, extra field, missing field) or that do not exist: the statement must fail and load nothing (also after reopen)", seed)
-    res = runner.run_many("fault", js, timeout=1800, progress=4)
+    try:
+        res = runner.run_many("fault", js, timeout=1800, progress=4)
+    finally:
+        for f in FILES:
+            try:
+                os.remove(f)
+            except OSError:
+                pass
     npos = 0
     for j, r in zip(js, res):
         base = j["id"]
